@@ -62,9 +62,14 @@ class Peer:
             from indi.transport.server import tty
 
             self.stdin, self.stdout = net.FakeStdin(loop), net.FakeStdout(loop)
-            self.handler = tty.ConnectionHandler(session.net.router, self.stdin, self.stdout)
-            self.task = loop.create_task(self.handler.handle())
+            # through the public entry point (TTY(router, stdin, stdout).start()), which builds the connection handler
+            router = session.net.router
+            before = list(router.clients)
+            self.server = tty.TTY(router, self.stdin, self.stdout)
+            self.task = loop.create_task(self.server.start())
             loop.drain()
+            new = [c for c in router.clients if c not in before]
+            self.handler = new[0] if new else None
         self.mark = 0
 
     # -- peer -> server --------------------------------------------------------------------
